@@ -1141,8 +1141,8 @@ func (g *c03gen) gen(env *c03env, k gkind, depth int) *cx {
 					return e
 				}
 			}
-			if t == "int" && env.cdecl && r.chance(15) {
-				return &cx{K: "len", A: g.gen(env, gkind{U: "string"}, 1)}
+			if t == "int" && env.cdecl && r.chance(35) {
+				return &cx{K: "len", A: g.gen(env, gkind{U: "string"}, r.intn(3))}
 			}
 			return &cx{K: "conv", T: t, A: g.smallFor(t)}
 		}
@@ -1711,6 +1711,29 @@ func c03Analyze(ref *c03ref) c03facts {
 			if pFloat || pTypedInt {
 				chain(root, func(n ast.Expr) {
 					intKind := K(n).isIntKind()
+					if kn := K(n); kn.T == "" && rk.T != "" {
+						// an untyped subexpression of the chain is computed again under the typed result type:
+						// its operands must then fit that type, and for float32 it keeps float64 precision
+						if _, bin := n.(*ast.BinaryExpr); bin && rk.T == "float32" {
+							f.Feats["multipass-propagation"] = true
+						}
+						ast.Inspect(n, func(m ast.Node) bool {
+							if e, ok := m.(ast.Expr); ok {
+								if tv, ok := info.Types[e]; ok && tv.Value != nil && pTypedInt {
+									if iv := constant.ToInt(tv.Value); iv.Kind() == constant.Int {
+										lim := bitsOf(rk.T)
+										if !isUintT(rk.T) {
+											lim--
+										}
+										if constant.BitLen(iv) > lim || isUintT(rk.T) && constant.Sign(iv) < 0 {
+											f.Feats["multipass-propagation"] = true
+										}
+									}
+								}
+							}
+							return true
+						})
+					}
 					switch x := n.(type) {
 					case *ast.BinaryExpr:
 						switch x.Op {
@@ -2281,7 +2304,7 @@ func runC03(args []string) error {
 	distinct := distinctSet{}
 	nMain, nRegion := 1300, 40
 	if *tier == "thorough" {
-		nMain, nRegion = 45000, 900
+		nMain, nRegion = 80000, 1500
 	}
 	if *count > 0 {
 		nMain = *count
